@@ -185,9 +185,9 @@ theorem wfh_registerMon {s : State} (w : WFh s) (mid : Nat) (hal : (s.mons mid).
 theorem newMonitor_mons (s : State) (t : Nat) (pp : Bool) (path : Path) (tags : Option Nat)
     (reads : List Nat) (cell : Nat) (i : Nat) :
     (newMonitor s t pp path tags reads cell).1.mons i =
-      if i = s.nMons then ⟨t, true, some s.nextId, pp, path, tags, reads, cell, 0, 0⟩ else s.mons i := by
+      if i = s.nMons then ⟨t, true, some s.nextId, pp, path, tags, reads, cell, 0, 0, cellLayer s cell⟩ else s.mons i := by
   simp only [newMonitor, registerMon_mons, setMon]
-  by_cases h : i = s.nMons <;> simp [h]
+  by_cases h : i = s.nMons <;> simp [h, cellLayer]
 
 theorem wfh_newMonitor {s : State} (w : WFh s) (t : Nat) (pp : Bool) (path : Path) (tags : Option Nat)
     (reads : List Nat) (cell : Nat) : WFh (newMonitor s t pp path tags reads cell).1 := by
@@ -230,7 +230,7 @@ structure WFc (s : State) : Prop where
 structure WF (s : State) : Prop extends WFc s where
   alive_live : ∀ mid, (s.mons mid).alive = true → live s mid = true
 
-theorem init_wf (topo : List (Nat × Nat)) : WF (init topo) := by
+theorem init_wf (topo : List (Nat × Nat × Nat)) (f : Bool := false) : WF (init topo f) := by
   refine ⟨⟨⟨?_, ?_, ?_, ?_⟩, ?_, ?_⟩, ?_⟩ <;> simp [init, noMonitor, noTrainer, PoolOK]
 
 theorem gc_wf {s : State} (w : WFc s) : WF (gc s) := by
@@ -493,6 +493,8 @@ theorem findAlias_go_mem (s : State) (T : Trainer) (cell mname tags : Nat) (path
   | cons o rest ih =>
     obtain ⟨oname, ocell⟩ := o
     simp only [findAlias.go] at h
+    split at h
+    · exact ih found hf h
     cases hg : lookup T.groups oname with
     | none => simp only [hg] at h; exact ih found hf h
     | some g =>
@@ -913,14 +915,14 @@ theorem stepCore_wfc {s : State} (w : WF s) (op : Op) : WFc (stepCore s op).1 :=
     · rename_i hal
       have hal : (s.trainers t).alive = true := by simpa using hal
       exact trainerTrain_wfc wc t mode hal
-  | layerTrain mode =>
+  | layerTrain l mode =>
     exact wfc_skeleton wc rfl rfl rfl rfl rfl (fun i => ⟨rfl, rfl, rfl⟩)
-  | layerStep =>
+  | layerStep l =>
     simp only [stepCore]
     split
-    · apply wfc_skeleton (s' := ghostStep s) wc rfl rfl rfl rfl rfl
+    · apply wfc_skeleton (s' := ghostStep s l) wc rfl rfl rfl rfl rfl
       intro i; simp only [ghostStep]; split <;> exact ⟨rfl, rfl, rfl⟩
-    · apply wfc_skeleton (s' := countStep (ghostStep s) (ranHooks s)) wc rfl rfl rfl rfl rfl
+    · apply wfc_skeleton (s' := countStep (ghostStep s l) (ranHooks s l)) wc rfl rfl rfl rfl rfl
       intro i; simp only [countStep, ghostStep]; split <;> split <;> exact ⟨rfl, rfl, rfl⟩
   | trainerStep t =>
     simp only [stepCore]
@@ -941,12 +943,13 @@ theorem stepCore_wfc {s : State} (w : WF s) (op : Op) : WFc (stepCore s op).1 :=
 
 theorem step_wf {s : State} (w : WF s) (op : Op) : WF (step s op).1 := gc_wf (stepCore_wfc w op)
 
-theorem exec_wf (topo : List (Nat × Nat)) (ops : List Op) : WF (exec (init topo) ops) := by
+theorem exec_wf (topo : List (Nat × Nat × Nat)) (ops : List Op) (f : Bool := false) :
+    WF (exec (init topo f) ops) := by
   have : ∀ (s : State), WF s → WF (exec s ops) := by
     induction ops with
     | nil => intro s w; exact w
     | cons op ops ih => intro s w; exact ih _ (step_wf w op)
-  exact this _ (init_wf topo)
+  exact this _ (init_wf topo f)
 
 
 
@@ -1072,9 +1075,9 @@ theorem rel_clearMons (s : State) (t : Nat) : Rel s (clearMons s t) := by
   · right; exact ⟨rfl, rfl⟩
   · left; exact SameButHandle.refl _
 
-theorem rel_stepCore (s : State) (op : Op) (h : op ≠ .layerStep) : Rel s (stepCore s op).1 := by
+theorem rel_stepCore (s : State) (op : Op) (h : ∀ l, op ≠ .layerStep l) : Rel s (stepCore s op).1 := by
   cases op with
-  | layerStep => exact absurd rfl h
+  | layerStep l => exact absurd rfl (h l)
   | newTrainer kind => exact Rel.of_mons_eq rfl
   | registerCell t n c v =>
     simp only [stepCore]
@@ -1115,7 +1118,7 @@ theorem rel_stepCore (s : State) (op : Op) (h : op ≠ .layerStep) : Rel s (step
     · exact Rel.refl _
     · exact (Rel.of_mons_eq (s := s) (s' := setTrainer s t { s.trainers t with training := mode }) rfl).trans
         (rel_setAll _ _ _)
-  | layerTrain mode => exact Rel.of_mons_eq rfl
+  | layerTrain l mode => exact Rel.of_mons_eq rfl
   | trainerStep t =>
     simp only [stepCore]
     split
@@ -1169,15 +1172,31 @@ theorem any_post_iff {s : State} (w : WF s) (mid : Nat) (hal : (s.mons mid).aliv
     rw [List.any_eq_true]
     exact ⟨(hid, mid), w.h.handle_mem mid hid hh, by simp⟩
 
-theorem countOK_layerStep {s : State} (w : WF s) (h : CountOK s) (hok : (stepCore s .layerStep).2 = .ok) :
-    CountOK (stepCore s .layerStep).1 := by
+theorem any_filter_snd (post : List (Nat × Nat)) (p : Nat → Bool) (mid : Nat) :
+    (post.filter (fun e => p e.2)).any (fun e => e.2 == mid) = (post.any (fun e => e.2 == mid) && p mid) := by
+  induction post with
+  | nil => simp
+  | cons x xs ih =>
+    rw [List.filter_cons, List.any_cons]
+    by_cases hx : x.2 = mid
+    · subst hx
+      cases hp : p x.2
+      · simp only [Bool.false_eq_true, if_false, ih, hp, Bool.and_false]
+      · simp [List.any_cons]
+    · have hb : (x.2 == mid) = false := by simpa using hx
+      split
+      · rw [List.any_cons, hb, ih]; simp
+      · rw [ih, hb]; simp
+
+theorem countOK_layerStep {s : State} (w : WF s) (h : CountOK s) (l : Nat)
+    (hok : (stepCore s (.layerStep l)).2 = .ok) : CountOK (stepCore s (.layerStep l)).1 := by
   simp only [stepCore] at hok ⊢
-  by_cases hlt : s.layerTraining = true
+  by_cases hlt : s.layerTraining l = true
   · simp only [hlt, Bool.not_true, Bool.false_eq_true, if_false] at hok ⊢
-    have hran : ranHooks s = s.post := by
+    have hran : ranHooks s l = layerHooks s l := by
       unfold ranHooks
       apply takeWhile_eq_of_length
-      by_cases hlen : (ranHooks s).length < s.post.length
+      by_cases hlen : (ranHooks s l).length < (layerHooks s l).length
       · simp [hlen] at hok
       · unfold ranHooks at hlen; omega
     rw [hran]
@@ -1187,17 +1206,18 @@ theorem countOK_layerStep {s : State} (w : WF s) (h : CountOK s) (hok : (stepCor
       split at hal <;> split at hal <;> exact hal
     have hl := w.alive_live mid hal0
     simp only [live, referenced, hal0, Bool.true_and, Bool.and_eq_true, List.contains_iff_mem] at hl
-    have hany := any_post_iff w mid hal0
+    have hany : (layerHooks s l).any (fun e => e.2 == mid) =
+        ((s.trainers (s.mons mid).owner).training && ((s.mons mid).layer == l)) := by
+      unfold layerHooks
+      rw [any_filter_snd s.post (fun i => (s.mons i).layer == l) mid, any_post_iff w mid hal0]
     have hc := h mid hal0
     simp only [countStep, ghostStep, hany, hal0, hl.1, hlt, Bool.true_and, Bool.and_true]
-    cases (s.trainers (s.mons mid).owner).training <;> simp [hc, hl.2]
+    cases (s.trainers (s.mons mid).owner).training <;> cases ((s.mons mid).layer == l) <;> simp [hc, hl.2]
   · simp only [Bool.not_eq_true] at hlt
     simp only [hlt, Bool.not_false, if_true]
     intro mid hal
     simp only [ghostStep, hlt, Bool.and_false, Bool.false_and, Bool.false_eq_true, if_false] at hal ⊢
     exact h mid hal
-
-
 
 /-! ### Frame lemmas: what an operation addressed to `(t, n)` leaves alone -/
 
